@@ -103,6 +103,12 @@ pub fn gen_for(prop: &str, seed: u64, _tier: &str) -> Plan {
         Engine::Core if prop == "C11" && seed % 8 == 0 => crate::expert::gen_plan(seed),
         Engine::Core if prop == "C11" && seed % 8 == 1 => crate::mapeng::gen_plan(if seed % 16 == 1 { "C15" } else { "C16" }, seed),
         Engine::Core if prop == "C11" && seed % 8 == 2 => crate::templates::gen_plan(seed),
+        // C04: well-formed programs over the expert API, incremental-map and the typed shapes
+        Engine::Core if prop == "C04" && seed % 8 == 0 => crate::expert::gen_plan(seed),
+        Engine::Core if prop == "C04" && seed % 8 == 1 => crate::mapeng::gen_plan(if seed % 16 == 1 { "C15" } else { "C16" }, seed),
+        Engine::Core if prop == "C04" && seed % 16 == 2 => crate::templates::gen_plan(seed),
+        // C07: programs whose expert node writes a variable from its observability callback
+        Engine::Core if prop == "C07" && seed % 16 == 3 => crate::expert::gen_plan(seed),
         Engine::Core => crate::gen::gen_plan(seed, &spec::profile(prop)),
         Engine::Expert | Engine::Map | Engine::Limits => crate::engines::gen_plan(prop, seed),
     };
